@@ -472,7 +472,18 @@ class LabelList(Model):
         raise Unsupported('iteration over inputs/outputs of an abstract circuit needs an invariant')
 
     def m_copy_list(self, it):
-        raise Unsupported('copy of abstract label list')
+        n, elem, cnt = self._get(self.h.S)
+        return AbsLabelSeq(it.ctx, n=n, elem=elem, count=cnt, assume=False)
+
+    def m_listcomp_filter_neq(self, it, x):
+        """[e for e in self if e != x]  ->  every occurrence of x removed (order of the rest kept)"""
+        n, elem, cnt = self._get(self.h.S)
+        xt = it.label_term(x)
+        seq = AbsLabelSeq(it.ctx, assume=True)
+        l = z3.Const('l!flt', LabelSort)
+        it.ctx.assume(seq.n == n - cnt(xt))
+        it.ctx.assume(z3.ForAll([l], seq.count(l) == z3.If(l == xt, 0, cnt(l))))
+        return seq
 
 
 class GenericBlock(Model):
@@ -695,3 +706,152 @@ def _bind3(args, kwargs, names):
     for i, n in enumerate(names):
         vals.append(rest[i] if i < len(rest) else kwargs[n])
     return vals
+
+
+# ------------------------------------------------------------------ symbolic argument values ----
+class AbsLabelSeq(Model):
+    """An arbitrary sequence of labels (argument such as `operands`, `outputs`, `gates`): length n, positional
+    view elem(i), count view count(l), linked by  count(l) > 0  <=>  some position holds l."""
+    _k = 0
+
+    def __init__(self, ctx, tag=None, n=None, elem=None, count=None, assume=True):
+        AbsLabelSeq._k += 1
+        tag = tag or f'seq{AbsLabelSeq._k}'
+        self.n = n if n is not None else z3.Int(f'n@{tag}')
+        ef = z3.Function(f'elem@{tag}', I, LabelSort)
+        cf = z3.Function(f'count@{tag}', LabelSort, I)
+        self.elem = elem or (lambda i: ef(i))
+        self.count = count or (lambda l: cf(l))
+        self.prefix = []
+        if assume:
+            idx = z3.Function(f'idx@{tag}', LabelSort, I)
+            i, l = z3.Int(f'i@{tag}'), z3.Const(f'l@{tag}', LabelSort)
+            ctx.assume(self.n >= 0)
+            ctx.assume(z3.ForAll([l], z3.And(self.count(l) >= 0, self.count(l) <= self.n,
+                                             z3.Implies(self.count(l) > 0, z3.And(idx(l) >= 0, idx(l) < self.n, self.elem(idx(l)) == l)))))
+            ctx.assume(z3.ForAll([i], z3.Implies(z3.And(i >= 0, i < self.n), self.count(self.elem(i)) >= 1)))
+
+    def concrete_len(self, it=None):
+        n = z3.simplify(self.n)
+        return n.as_long() if z3.is_int_value(n) else None
+
+    def m_len(self, it):
+        return Sym(self.n)
+
+    def m_getitem(self, it, k):
+        if isinstance(k, slice):
+            raise Unsupported('slice of abstract label sequence')
+        kt = it.int_term(k)
+        if not it.ctx.choose(_simp(z3.And(kt >= -self.n, kt < self.n))):
+            it.raise_('IndexError', 'index out of range')
+        return Sym(self.elem(z3.simplify(z3.If(kt < 0, kt + self.n, kt))))
+
+    def m_contains(self, it, x):
+        try:
+            return _simp(self.count(it.label_term(x)) > 0)
+        except Unsupported:
+            return False
+
+    def m_iter(self, it):
+        raise Unsupported('iteration over an abstract label sequence needs a loop invariant')
+
+    def m_copy(self, it):
+        return self
+
+    def m_copy_list(self, it):
+        return self             # list(seq): same views (the copy is never mutated through the original)
+
+    def m_getattr(self, it, name):
+        raise Unsupported('abstract label sequence method ' + name)
+
+
+def as_ops(seq):
+    """view an AbsLabelSeq as an operand tuple"""
+    return OpsSeq(seq.n, seq.elem, seq.count)
+
+
+class ForallInDom(object):
+    """loop `for x in seq: if not circuit.has_gate(x): raise …` (validation.check_gates_exist): no state change;
+    invariant: the first k elements are gates of the circuit"""
+
+    def __init__(self, holder_of):
+        self.holder_of = holder_of
+
+    def applies(self, it, env, iterable):
+        return isinstance(iterable, (AbsLabelSeq, OpsSeq)) and iterable.concrete_len(it) is None
+
+    def havoc(self, it, env):
+        pass
+
+    def inv(self, it, env, k):
+        seq = env['gates']
+        h = self.holder_of(it, env)
+        i = z3.Int('i!chk')
+        return [('prefix-in-dom', z3.ForAll([i], z3.Implies(z3.And(i >= 0, i < k), h.S.dom(seq.elem(i)))))]
+
+
+def install_validation_loops(it):
+    it.loop_specs[('cirbo/core/circuit/validation.py::check_gates_exist', 1)] = ForallInDom(lambda it_, env: env['circuit'].holder)
+
+
+def sync_fields(it, h):
+    """fold re-assigned `_inputs` / `_outputs` fields (self._outputs = list(...)) back into the functional state"""
+    o = h.obj
+    for fld, w in (('_inputs', 'in'), ('_outputs', 'out')):
+        v = o.fields[fld]
+        if isinstance(v, LabelList):
+            continue
+        S = h.S.copy()
+        if isinstance(v, VList):
+            items = [it.label_term(x) for x in v.items]
+            n = z3.IntVal(len(items))
+
+            def elem(i, items=items):
+                r = items[-1] if items else z3.Const('nolabel', LabelSort)
+                for j in range(len(items) - 2, -1, -1):
+                    r = z3.If(i == j, items[j], r)
+                return r
+            cnt = lambda l, items=items: z3.Sum([z3.If(x == l, 1, 0) for x in items]) if items else z3.IntVal(0)
+        elif isinstance(v, (AbsLabelSeq, OpsSeq)):
+            n, elem, cnt = v.n, v.elem, v.count
+        else:
+            raise Unsupported(f'{fld} replaced by {type(v).__name__}')
+        setattr(S, w + '_n', n)
+        setattr(S, w + '_elem', elem)
+        setattr(S, w + '_cnt', cnt)
+        h.S = S
+        o.fields[fld] = LabelList(h, w)
+
+
+def install_order_contracts(it):
+    """ASSUMED contracts of Circuit.order_inputs / order_outputs (bodies are bounded-only: utils.order_list):
+    the list is permuted (count view and length unchanged, positional view arbitrary), nothing else changes;
+    raises CircuitGateIsAbsentError when a requested label is not in the list (or requested more often than present)."""
+    def make(which):
+        def handler(it_, fv, args, kwargs):
+            self_, labels = _bind3(args, kwargs, ('inputs' if which == 'in' else 'outputs',))[:2]
+            h = getattr(self_, 'holder', None)
+            if h is None:
+                return it_.call_function(fv, args, kwargs, force_inline=True)
+            sync_fields(it_, h)
+            old = h.S
+            cnt = getattr(old, which + '_cnt')
+            n = getattr(old, which + '_n')
+            items = [it_.label_term(x) for x in it_.iterate(labels)]
+            for j, x in enumerate(items):
+                need = z3.Sum([z3.If(y == x, 1, 0) for y in items[:j + 1]])
+                if not it_.ctx.choose(_simp(cnt(x) >= need)):
+                    m = it_.load_module('cirbo.core.circuit.exceptions')
+                    raise PyRaise(it_.instantiate(m.env['CircuitGateIsAbsentError'], [], {}))
+            S = old.copy()
+            e2 = z3.Function(it_.ctx.fresh(I, which + '_elem_perm').decl().name(), I, LabelSort)
+            setattr(S, which + '_elem', lambda i: e2(i))
+            h.S = S
+            j = z3.Int('j!perm')
+            it_.ctx.assume(z3.ForAll([j], z3.Implies(z3.And(j >= 0, j < n), cnt(e2(j)) >= 1)))
+            for k, x in enumerate(items):
+                it_.ctx.assume(e2(k) == x)
+            return self_
+        return handler
+    it.contracts[CIRC + '::Circuit.order_inputs'] = make('in')
+    it.contracts[CIRC + '::Circuit.order_outputs'] = make('out')
